@@ -122,7 +122,48 @@ class _Base(Harness):
             if bad:
                 raise AssertionError('%s %r: %r' % (self.scheme, cfg, bad))
             k += 1
+        k += self._representation_probe(cfg, rng)
         return k
+
+    def _representation_probe(self, cfg, rng):
+        """the same channel / data / noise variance in other numpy
+        representations (integer-dtype, float32, read-only, Fortran-ordered,
+        strided arrays; int / numpy scalars): invisible to the exact-real
+        model, decided by differential runs of the real code"""
+        from pysym import probes
+        shp = self._shape_H(cfg)
+        nd = self._n_data(cfg)
+        for _ in range(50):
+            H = np.array([[float(rng.randrange(-3, 4)) for _ in range(shp[1])]
+                          for _ in range(shp[0])])
+            if np.linalg.matrix_rank(H) == min(shp) and np.linalg.cond(
+                    H) < 50 and np.all(np.abs(H).sum(axis=0) > 0):
+                break
+        else:
+            return 0
+        x = np.array([complex(rng.randrange(-2, 3), rng.randrange(-2, 3))
+                      for _ in range(nd)])
+        x[0] = 1 + 1j
+
+        def run(H, x, nv):
+            Hm = np.asarray(H)
+            obj = self._mk(cfg, H)
+            if nv is not None and hasattr(obj, 'set_noise_var'):
+                obj.set_noise_var(nv)
+            enc = obj.encode(x)
+            rx = Hm @ enc if Hm.ndim == 2 else Hm[np.newaxis, :] @ enc
+            return enc, obj.decode(rx)
+        n = 0
+        for nv in (None, 0.5, 2.0):
+            if nv is not None and self.scheme not in ('Blast', 'MRC',
+                                                      'GMDMimo'):
+                continue
+            n += probes.require(
+                'C04/%s%s' % (self.scheme, '' if nv is None else '/mmse'),
+                run, [H, x, nv], rtol=1e-8, atol=1e-9,
+                kinds=('readonly', 'fortran', 'strided', 'int', 'narrow',
+                       'pyscalar'), check_result_alias=False)
+        return n
 
 
 class AlamoutiH(_Base):
